@@ -562,6 +562,10 @@ class Interp(object):
     def ex_Constant(self, e, fr):
         return self.lit(e.value)
 
+    def ex_Lambda(self, e, fr):
+        from .accmodel import VLambda
+        return VLambda(e)
+
     def ex_JoinedStr(self, e, fr):
         return VOpaque(fresh('fstr', Obj), 'str')
 
@@ -1172,6 +1176,9 @@ class Interp(object):
             raise PyRaise('TypeError', "'int' object is not subscriptable at %s" % self.ctx.where)
         if k == 'none':
             raise PyRaise('TypeError', "'NoneType' object is not subscriptable")
+        if k in ('acc', 'accpath'):
+            from .accmodel import acc_getitem
+            return acc_getitem(self, c, key)
         if k == 'opaque' and c.z.sort() == EvK:
             ci = concrete_int(key.z) if key.kind == 'int' else None
             if ci == 0:
@@ -1462,6 +1469,10 @@ class Interp(object):
             m2 = getattr(seqs, 'm_%s_%s' % (k, name), None)
             if m2 is not None:
                 return m2(self, recv, argv, kwv)
+            from . import accmodel
+            m3 = getattr(accmodel, 'm_%s_%s' % (k, name), None)
+            if m3 is not None:
+                return m3(self, recv, argv, kwv)
             raise Undecided('method %s.%s at %s' % (k, name, self.ctx.where))
         return m(recv, argv, kwv)
 
